@@ -440,7 +440,7 @@ impl Calendar {
     pub fn week_of_year(&self, iso_date: &IsoDate) -> TemporalResult<Option<u16>> {
         if self.is_iso() {
             let date = iso_date.to_icu4x();
-            let week_calculator = WeekCalculator::default();
+            let week_calculator = iso_week_calculator();
             let week_of = date.week_of_year(&week_calculator);
             return Ok(Some(week_of.week as u16));
         }
@@ -453,7 +453,7 @@ impl Calendar {
         if self.is_iso() {
             let date = iso_date.to_icu4x();
 
-            let week_calculator = WeekCalculator::default();
+            let week_calculator = iso_week_calculator();
 
             let week_of = date.week_of_year(&week_calculator);
 
@@ -519,6 +519,14 @@ impl Calendar {
         }
         self.0 .0.kind().as_bcp47_string()
     }
+}
+
+/// The ISO 8601 week rule: weeks start on Monday and week 1 is the first week
+/// with at least four days in the new year (i.e. the week containing the first Thursday).
+fn iso_week_calculator() -> WeekCalculator {
+    let mut week_calculator = WeekCalculator::default();
+    week_calculator.min_week_days = 4;
+    week_calculator
 }
 
 impl Calendar {
